@@ -54,6 +54,16 @@ def queries_for(task, rb):
         if lits:
             for qc in scopes.literal_queries3():
                 out.append((qc, forms.sem(qc, wsig)))
+    elif qs[0] == "tie":
+        # only the tie-rich (2,2) type-level queries (see ref.tie_rich) plus the literal queries
+        part = rb.fin if task["weakly"] else rb.part
+        feas = rb.feas if task["weakly"] else rb.full
+        if part is not None and len(part) >= 2:
+            for vf in scopes.type_queries(rb.sems, nW, 2, 2):
+                if ref.tie_rich(part, rb.sems, vf, feas):
+                    out.append((scopes.render_query(wsig, vf, "dnf"), vf))
+        for qc in scopes.literal_queries3():
+            out.append((qc, forms.sem(qc, wsig)))
     elif qs[0] == "sem-all":
         style = qs[1]
         for vf in scopes.all_semantic_queries(nW):
